@@ -309,7 +309,8 @@ func (r *AvPacket2RtmpRemuxer) FeedAvPacket(pkt base.AvPacket) {
 			}
 
 			length := len(pkt.Payload) - 5 // -7+2
-			if length < 7 {
+			if length <= 2 {
+				// no aac data behind the adts header. a frame of a few bytes is a frame like any other
 				return
 			}
 			payload := make([]byte, length)
